@@ -12,11 +12,14 @@ GLOBAL_QUERIES = ["dict_aliases", "dict_charge_conjugates", "dict_definitions", 
                   "list_lineshapePW_definitions", "global_photos_flag", "dict_model_aliases"]
 
 
-def make_parser(text=None, files=None, user_models=(), include_cc=True, load_calls=None):
+def make_parser(text=None, files=None, user_models=(), include_cc=True, load_calls=None, grammar_first=False):
     """Construct and parse with the real code; warnings are recorded, not raised."""
     from decaylanguage import DecFileParser  # noqa: PLC0415
 
     p = DecFileParser(*files) if files else DecFileParser.from_string(text)
+    if grammar_first:      # read-only accessors used before the models are registered
+        p.grammar()
+        p.grammar_info()
     if load_calls:
         for call in load_calls:
             p.load_additional_decay_models(*call)
